@@ -41,11 +41,17 @@ def gen_data(rng, method, n=None, m=None, extra=None, declared=None, positive=Fa
     known = []
     for i in range(n + extra):
         known.append({'id': ALT[i], 'criteria': {CRIT[j]: PU * rng.choice(vals) for j in range(m)}})
+    if lo < 0 and rng.random() < 0.3:     # a criterion whose values (and range) are negative throughout
+        j = rng.randrange(m)
+        for a in known:
+            a['criteria'][CRIT[j]] = -PU * rng.choice([1, 2, 3, 5, 8])
+        if 'valuesRange' in crits[j]:
+            crits[j]['valuesRange'] = {'min': -PU * rng.choice([8, 10]), 'max': -PU * rng.choice([0, 1]) // 2}
     chose = [a['id'] for a in known[:n]]
     rng.shuffle(chose)
     cs = CRIT[:m]
     if method in ('weightedSum', 'owa'):
-        mp = {'weights': {c: PU * rng.choice([1, 2, 3, 5]) // rng.choice([1, 2]) for c in cs}}
+        mp = {'weights': {c: PU * rng.choice([0, 1, 2, 3, 5]) // rng.choice([1, 2]) for c in cs}}
     elif method == 'choquetIntegral':
         mp = {'weights': {setkey(s): (PU // 4) * rng.choice([0, 1, 2, 3, 4]) for s in subsets(cs)}}
     elif method == 'electreIII':
@@ -64,7 +70,7 @@ def gen_data(rng, method, n=None, m=None, extra=None, declared=None, positive=Fa
         if rng.random() < 0.5:
             mp['electreDistillation'] = {'a': -(PU // 8), 'b': PU // 4}
     elif method == 'majorityHeuristic':
-        mp = {'weights': {c: PU * rng.choice([1, 2, 3, 5]) for c in cs}, 'randomSeed': rng.randint(0, 999),
+        mp = {'weights': {c: PU * rng.choice([0, 1, 2, 3, 5]) for c in cs}, 'randomSeed': rng.randint(0, 999),
               'drawResolution': rng.choice(['allow', 'current', 'newer', 'random'])}
         if rng.random() < 0.5:      # current choice among the considered, or a known alternative that is not considered
             outside = [a['id'] for a in known if a['id'] not in chose]
